@@ -130,13 +130,18 @@ func deviations(op string) []dev {
 			dev{"born-with-article", func(r *row, b *brd) { r.uf = artTime }},
 			dev{"entry-deleted", func(r *row, b *brd) { r.a.entName = ".d" + artName[2:] }},
 			dev{"name-L", func(r *row, b *brd) { r.a.argName = "L" + artName[1:]; r.a.entName = r.a.argName }},
-			dev{"entry-link", func(r *row, b *brd) { r.a.entName = "L" + artName[1:] }},
 			dev{"mode-vote", func(r *row, b *brd) { r.a.mode |= mVOTE }},
 			dev{"mode-marked", func(r *row, b *brd) { r.a.mode |= mMARK }},
 			dev{"mode-solved", func(r *row, b *brd) { r.a.mode |= mSOLVE }},
 			dev{"src-voteboard", func(r *row, b *brd) { r.s.attr |= aVOTEBOARD }},
 			dev{"src-norecommend", func(r *row, b *brd) { r.s.attr |= aNORECOMM }},
 		)
+	}
+	if op == "recommend" || op == "crosspost" {
+		// the index entry is a link entry although the requested name is not (cmsys.GetRecord compares from byte 2).
+		// Not for EditPost: it replaces the article file and then fails in ModifyDirLite on the differing name — an
+		// inconsistency of the index, not a permission refusal.
+		ds = append(ds, dev{"entry-link", func(r *row, b *brd) { r.a.entName = "L" + artName[1:] }})
 	}
 	if op == "crosspost" {
 		// the source board of a cross-post
